@@ -257,7 +257,7 @@ static void probes_cc(void)
 /* E2 layers                                                                */
 /* ======================================================================== */
 
-struct layer { const char *name; int n; uint16_t map[256]; int npre; uint16_t pre[64]; int depth[2]; int probe; };
+struct layer { const char *name; int n; uint16_t map[256]; int npre; uint16_t pre[64]; int depth[2]; int probe; int timeout; };
 #define MAXLY 12
 static struct layer LY[MAXLY]; static int NLY;
 
@@ -325,7 +325,7 @@ static int bfs_run(const uint8_t *hist, int n, uint64_t hash[2], void *arg)
 /* ======================================================================== */
 
 #define SMAX 40
-struct story { const char *name; int quick; int n; short step[SMAX]; unsigned expect; int nobytes; };
+struct story { const char *name; int quick; int n; short step[SMAX]; unsigned expect; int nobytes; int hexnav; };
 enum { X_POP = 1, X_DRCS = 2, X_TOPNAV = 4, X_TITLE = 8, X_TRIGGER = 16, X_TOPINDEX = 32, X_LOP = 64, X_FLOF = 128 };
 #define MAXSTORY 20
 static struct story ST[MAXSTORY]; static int NST;
@@ -334,6 +334,11 @@ static struct story *story_new(const char *name, int quick, unsigned expect)
 {
         if (NST >= MAXSTORY) harness_die("too many storylines");
         struct story *s = &ST[NST++]; memset(s, 0, sizeof *s); s->name = name; s->quick = quick; s->expect = expect; return s;
+}
+static const struct story *story_by_name(const char *name)
+{
+        for (int i = 0; i < NST; i++) if (!strcmp(ST[i].name, name)) return &ST[i];
+        harness_die("no storyline named '%s'", name);
 }
 static void st_p(struct story *s, const int *pk, int n) { for (int i = 0; i < n; i++) { if (s->n >= SMAX) harness_die("storyline %s too long", s->name); s->step[s->n++] = TTX(pk[i]); } }
 static void st_l(struct story *s, const char *name) { if (s->n >= SMAX) harness_die("storyline %s too long", s->name); s->step[s->n++] = letter_by_name(name); }
@@ -380,6 +385,24 @@ static void build_stories(void)
         STP(s, P_H101, P_R1_ATTR, P_H1F0, P_BTT_R1S, P_H1FF, P_H1F0, P_BTT_R1S, P_H1FF, P_H101, P_R1_ATTR, P_H1F0, P_BTT_R1S, P_H1FF);
         s = story_new("damaged headers", 0, 0);
         STP(s, P_H100E, P_R1_TEXT, P_HBADPAGE, P_R1_TEXT, P_H100E, P_HBADSUB, P_R1_TEXT, P_HBADFLAGS, P_R1_TEXT, P_H1FF);
+        /* seed C01 round 5 (the TOP navigation bar walk never came back to a page with a hexadecimal number): every other
+         * storyline shows pages 100..103 only.  A page with a hexadecimal number is an ordinary displayable page once the MIP
+         * lists it as normal / schedule / subtitle page, and the page walks of the formatter (TOP navigation bar, TOP index,
+         * search) then start from a number that the tables of decimal pages (BTT, AIT) never contain.  Three states of the TOP
+         * tables x hexadecimal and decimal pages (new storylines go to the end: recorded replays name storylines by index):
+         *   - TOP recognised (BTT packet 21) but no page table yet: nothing is known as block or group page,
+         *   - a page table with groups, schedule, subtitle and normal pages but no block page,
+         *   - the complete table (block pages on both sides of the hexadecimal page), with AIT titles.
+         * The probes fetch every cached page with 25 rows + navigation at Level 3.5 and 2.5 (probes()), storyline-orders runs
+         * every order of the transmissions (MIP before / after the hexadecimal page, BTT before / after ...), the byte
+         * exhaustive phase replaces every byte of the first one: every MIP code for 10A..12F, every page number of the header
+         * (units and tens digit: 100..10F, 10A..1FA), every BTT link. */
+        s = story_new("TOP without block pages (BTT packet 21 only), hexadecimal and decimal pages listed by the MIP", 1, X_LOP); s->hexnav = 1;
+        STP(s, P_H1FD, P_MIP_R9, P_H1F0, P_BTT_R21, P_H100E, P_R1_TEXT, P_H10A, P_R1_TEXT, P_H1FF);
+        s = story_new("TOP, page table with groups but no block page, hexadecimal pages 10A, 12F, 18A, 18B (subtitles) and page 101", 0, X_LOP); s->hexnav = 1;
+        STP(s, P_H1FD, P_MIP_R9, P_MIP_R11, P_H1F0, P_BTT_R1G, P_BTT_R21, P_H10A, P_R1_TEXT, P_H12F, P_R1_ATTR, P_H18A, P_R1_TEXT, P_H18B, P_R1_TEXT, P_H101, P_R1_TEXT, P_H1FF);
+        s = story_new("TOP with block pages and titles, hexadecimal page 10A between the block pages 100 and 110", 0, X_LOP | X_TOPNAV); s->hexnav = 1;
+        STP(s, P_H1FD, P_MIP_R9, P_H1F0, P_BTT_R1, P_BTT_R21, P_H17C, P_AIT_R1, P_H100E, P_R1_TEXT, P_H10A, P_R1_TEXT, P_H1FF);
 }
 
 static void run_story_steps(const struct story *s, int from, int to) { for (int i = from; i < to; i++) do_letter(s->step[i]); }
@@ -394,8 +417,12 @@ static void story_selfcheck_case(uint64_t idx, void *arg)
         audit();
         unsigned got = (G.reached_pop_obj ? X_POP : 0) | (G.reached_drcs ? X_DRCS : 0) | (G.reached_top_nav ? X_TOPNAV : 0) | (G.reached_title ? X_TITLE : 0)
                      | (G.reached_trigger_ev ? X_TRIGGER : 0) | (G.reached_top_index ? X_TOPINDEX : 0) | (G.reached_lop_fetch ? X_LOP : 0) | (G.reached_flof ? X_FLOF : 0);
-        int unterminated = (int) G.unterminated;
+        int unterminated = (int) G.unterminated, hexnav = G.reached_hex_nav;
         ex_end();
+        /* not a self check that can end the run: a tree which stops displaying such pages is no machinery error (and breaks
+         * nothing C01 names) - the evidence says that the dimension was not explored */
+        if (s->hexnav && !hexnav) mc_not_exhaustive("storyline '%s' did not format a page with a hexadecimal number with 25 rows + navigation", s->name);
+        if (hexnav) { mc_outcome("page with a hexadecimal number formatted with 25 rows + navigation while TOP is recognised"); mc_count("hex_page_navigation_fetches", hexnav); }
         if ((got & s->expect) != s->expect) harness_die("storyline '%s' does not reach what it is written for: expected %#x got %#x", s->name, s->expect, got);
         if (got & X_POP) mc_outcome("level 2.5 fetch applied an object from a POP page");
         if (got & X_DRCS) mc_outcome("level 2.5 fetch resolved a DRCS character (pg->drcs set)");
@@ -935,8 +962,8 @@ int main(int argc, char **argv)
         if (!mc_replaying) warm_up();
 
         mc_meta("level", "model_checking");
-        mc_meta("technique", "explicit-state BFS over event histories on the real vbi_decoder with canonical state hashing (7 layered alphabets), plus byte-exhaustive single steps (every byte value at every position of every packet of well formed transmissions; all 65536 caption byte pairs on both fields from several caption states); oracles: AddressSanitizer, recoverable UBSan through __ubsan_on_report, assert, per case watchdog, allocator accounting at vbi_decoder_delete, LeakSanitizer backstop, linear growth under repetition");
-        mc_meta("rule", "a case is a history of letters (one letter = one vbi_decode() of one sliced line, one macro transmission, or one read-side call group) replayed on a fresh decoder and hashed canonically (raw pages, caption channels, XDS/ITV buffers, network, magazines, page statistics, cache contents in MRU order, held page); de-duplicated states are expanded with every letter of the layer. Byte-exhaustive cases replace one byte of one packet of a storyline by one value and run the rest of the storyline and the read-side probes; distinct = canonical final states reached (BFS states and byte variants) - a variant that decodes to the same state as another is not counted twice");
+        mc_meta("technique", "explicit-state BFS over event histories on the real vbi_decoder with canonical state hashing (10 layered alphabets, 4 of them read-side layers starting from populated decoders: Level 2.5, TOP, TOP without block page + hexadecimal page, caption), every order of the page transmissions of well formed storylines, plus byte-exhaustive single steps (every byte value at every position of every packet of these transmissions; all 65536 caption byte pairs on both fields from several caption states); oracles: AddressSanitizer, recoverable UBSan through __ubsan_on_report, assert, per case watchdog, allocator accounting at vbi_decoder_delete, LeakSanitizer backstop, linear growth under repetition");
+        mc_meta("rule", "a case is a history of letters (one letter = one vbi_decode() of one sliced line, one macro transmission, or one read-side call group) replayed on a fresh decoder and hashed canonically (raw pages, caption channels, XDS/ITV buffers, network, magazines, page statistics, cache contents in MRU order, held page); de-duplicated states are expanded with every letter of the layer. Storyline cases (fixed order, every order of the transmissions, one byte of one packet replaced by each value) run the rest of the storyline and the read-side probes - every cached page, decimal or hexadecimal number, fetched with 25 rows + navigation at Level 3.5/2.5, header-only, links, text, TOP index, titles; distinct = canonical final states reached (BFS states and byte variants) - a variant that decodes to the same state as another is not counted twice");
         mc_meta("assume", "forward/backward searches start at page 100 or at a cached page and are cut by the progress callback after 2*(cached pages)+2 visits (non-termination from a start above all cached pages is C17's finding)");
         mc_meta("assume", "vbi_decode() is never called from an event handler and all calls come from one thread (documented restrictions)");
         mc_meta("assume", "API arguments are within their documented domains where the library asserts them (vbi_resolve_link column/row inside the page, vbi_cache_hi_subno pgno 0x100..0x8FF)");
@@ -965,6 +992,18 @@ int main(int argc, char **argv)
         { static const char *n[] = { "H1F0(BTT)", "BTT row1 (100..139)", "BTT row21 (links AIT 17C, MPT 17D, MPT-EX 17E)", "H17C", "AIT row1 (titles 100, 101)", "H100/0001", "row1 text+links",
                                      "H1FF(filler)", "X/27/0 (FLOF links)", "row24 flof labels", "vbi_channel_switched", NULL }; ly_names(ly, n); }
         ly->depth[0] = 2; ly->depth[1] = 3;
+        /* read side from a decoder that recognised TOP, knows no block page and holds a page with a hexadecimal number
+         * (seed C01 round 5): every read side letter - fetches at all levels, exports, searches (vbi_search_next() formats with
+         * navigation), held pages - and the transmissions that change the TOP / MIP tables or give the page FLOF links */
+        ly = &LY[NLY++]; ly->name = "read-tophex";
+        { const struct story *hs = story_by_name("TOP without block pages (BTT packet 21 only), hexadecimal and decimal pages listed by the MIP");
+          for (int i = 0; i < hs->n; i++) ly_pre(ly, hs->step[i]); }
+        ly_range(ly, LT_READ0, LT_READ1);
+        { static const char *n[] = { "H1F0(BTT)", "BTT row1 (groups 100, 110, 117, 126; no block)", "BTT row1 (100..139)", "BTT row21 (links AIT 17C, MPT 17D, MPT-EX 17E)",
+                                     "H10A+erase (MIP row9: normal page)", "H12F+erase (MIP row9: normal page)", "H18A+erase (MIP row11: normal page)", "row1 text+links",
+                                     "X/27/0 (FLOF links)", "row24 flof labels", "H1FD(MIP)", "MIP row9 (10A..12F: normal, subtitle, schedule pages...)",
+                                     "MIP row11 (16A..18F: GPOP,TOP,DRCS,POP,trigger,EPG...)", "H1FF(filler)", "vbi_channel_switched", NULL }; ly_names(ly, n); }
+        ly->depth[0] = 3; ly->depth[1] = 4; ly->timeout = 20;
         /* caption read side */
         ly = &LY[NLY++]; ly->name = "read-cc";
         { static const char *p[] = { "F1 RU2", "F1 text 36 chars", "F1 CR", "F1 text AB", "F2 RU4", "F2 text ab", NULL }; for (const char *const *q = p; *q; q++) ly_pre(ly, letter_by_name(*q)); }
@@ -1000,18 +1039,23 @@ int main(int argc, char **argv)
         grow_len = thorough ? 3 : 2;
         build_targets(!thorough);
 
-        char bound[1400]; size_t o = 0;
+        char bound[1500]; size_t o = 0;
         for (int i = 0; i < NLY; i++) o += snprintf(bound + o, sizeof bound - o, "%slayer %s: %d letters, depth %d", i ? "; " : "", LY[i].name, LY[i].n, LY[i].depth[thorough]);
-        o += snprintf(bound + o, sizeof bound - o, "; storyline orders: every order of the page transmissions of each storyline (up to 7 transmissions, thorough 8: all permutations; more: all rotations and exchanges of two); byte exhaustive: %d (state,packet) targets of %d storylines x 42 positions x 256 values; caption: %d states x 2 fields x 65536 pairs; growth: %d storylines + all %d-letter sequences over %d letters, 9 repetitions (linear growth confirmed over 297 repetitions before it is reported); held page: 3 storylines x 2 levels x 10 disturbances x 2 uses; XDS: 96 (class,type) x 11 lengths x %d values x 2 patterns; ITV: 8 strings x every position x 96 characters; all 65536 WSS words, 256 CPR-1204 bytes, VPS 3 bases x 13 bytes x 256; aux IDL/PFC: 3 packets x 42 x 256",
+        o += snprintf(bound + o, sizeof bound - o, "; storyline orders: every order of the page transmissions of each storyline (up to 7 transmissions, thorough 8: all permutations; more: all rotations and exchanges of two), incl. 3 TOP storylines with displayable hexadecimal pages (10A, 12F, 18A, 18B listed by MIP rows 9/11) x TOP tables (BTT packet 21 only / no block page / complete), every cached page fetched with 25 rows + navigation; byte exhaustive: %d (state,packet) targets of %d storylines x 42 positions x 256 values; caption: %d states x 2 fields x 65536 pairs; growth: %d storylines + all %d-letter sequences over %d letters, 9 repetitions (linear growth confirmed over 297 repetitions before it is reported); held page: 3 storylines x 2 levels x 10 disturbances x 2 uses; XDS: 96 (class,type) x 11 lengths x %d values x 2 patterns; ITV: 8 strings x every position x 96 characters; all 65536 WSS words, 256 CPR-1204 bytes, VPS 3 bases x 13 bytes x 256; aux IDL/PFC: 3 packets x 42 x 256",
                       NTG, NST, n_cc_states, NST, grow_len, NGROW, thorough ? 96 : 9);
         mc_meta("bound", "%s", bound);
         mc_note("alphabet: %d letters (%d Teletext packets, %d caption/XDS/ITV, %d misc, %d read side)", NLT, NPKT, LT_CC1 - LT_CC0, LT_MISC1 - LT_MISC0, LT_READ1 - LT_READ0);
 
-        POOL("storylines-selfcheck", NST, story_selfcheck_case, NULL, 60);
+        /* watchdog limit: the engine re-runs the first timed out case alone with 5 x the limit before it calls it a hang, and
+         * the limit is part of the violation key (crash=hang>100s).  A storyline case takes milliseconds, a case of 48 orders
+         * about 0.1 s, a byte case (256 executions) about 0.3 s of CPU: 20 s is more than 60 x that, one defect gets one key in
+         * the three phases, and a tree that loops in every one of them (seed C01 round 5: 100 s confirmation + one limit per
+         * phase) is still reported within a few minutes */
+        POOL("storylines-selfcheck", NST, story_selfcheck_case, NULL, 20);
         build_orders(thorough);
-        POOL("storyline-orders", n_order_cases, order_case, NULL, 120);
+        POOL("storyline-orders", n_order_cases, order_case, NULL, 20);
 
-        POOL("byte-exhaustive", (uint64_t) NTG * 42, byte_case, NULL, 120);
+        POOL("byte-exhaustive", (uint64_t) NTG * 42, byte_case, NULL, 20);
         { static int use0 = 0, use1 = 1;
           POOL("held-page-draw", (uint64_t) 2 * NDISTURB * (sizeof HELD_STORIES / sizeof *HELD_STORIES), held_case, &use0, 60);
           POOL("held-page-export", (uint64_t) 2 * NDISTURB * (sizeof HELD_STORIES / sizeof *HELD_STORIES), held_case, &use1, 60); }
@@ -1023,11 +1067,11 @@ int main(int argc, char **argv)
         { uint64_t nseq = 1; for (int i = 0; i < grow_len; i++) nseq *= NGROW; POOL("growth", NST + nseq, growth_case, NULL, 120); }
         POOL("aux-idl-pfc", 3 * 42, aux_case, NULL, 60);
         /* layers last, cheapest first: if the global deadline cuts the run, it cuts the deepest level of the biggest layer */
-        { static const char *order[] = { "read-level25", "read-top", "read-cc", "cross", "misc", "ttx-core", "cc-core", "ttx", "cc" };
+        { static const char *order[] = { "read-level25", "read-top", "read-tophex", "read-cc", "cross", "misc", "ttx-core", "cc-core", "ttx", "cc" };
           for (unsigned k = 0; k < sizeof order / sizeof *order; k++) for (int i = 0; i < NLY; i++) {
                 if (strcmp(LY[i].name, order[k])) continue;
                 mc_bfs_spec spec; memset(&spec, 0, sizeof spec);
-                spec.nletters = LY[i].n; spec.max_depth = LY[i].depth[thorough]; spec.timeout_s = 60;
+                spec.nletters = LY[i].n; spec.max_depth = LY[i].depth[thorough]; spec.timeout_s = LY[i].timeout ? LY[i].timeout : 60;
                 spec.run = bfs_run; spec.arg = &LY[i]; spec.letter_name = layer_letter_name;
                 char phase[64]; snprintf(phase, sizeof phase, "bfs-%s", LY[i].name);
                 mc_bfs_result res;
